@@ -1,5 +1,10 @@
+mod handle_stream;
 mod path_stream;
+mod replay;
+mod tree_stream;
 mod util;
+mod world;
+mod wrappers;
 use util::*;
 
 fn main() {
@@ -40,6 +45,9 @@ fn main() {
     let t0 = std::time::Instant::now();
     let rep = match stream.as_str() {
         "path" => path_stream::run(&o),
+        "tree" => tree_stream::run(&o),
+        "handle" => handle_stream::run(&o),
+        "replay" => replay::run(&o),
         s => {
             eprintln!("unknown stream {}", s);
             std::process::exit(2);
